@@ -109,6 +109,19 @@ static FWire c11_load(Reader& r, FReader& fr) {
         o.push_back(nih); if (nih!=(ll)il.size()) o.push_back(-777);
         for (const auto& oms : il) { o.push_back((ll)oms.size()); for (const auto& om : oms) { o.push_back(om.first); o.push_back(om.second); } }
     }
+    // stored Triangle::normal()/area() against the vertex order the triangle has after the load
+    {
+        ll badn = 0;
+        for (const auto& m : geo.meshes())
+            for (const auto& t : m.triangles()) {
+                const Vect3 nd = crossprod(t.vertex(0)-t.vertex(1),t.vertex(0)-t.vertex(2));
+                const double a = nd.norm()/2.0;
+                if (!(a>0.0)) continue;
+                const double c = dotprod(nd,t.normal())/(2.0*a);
+                if (!(c>0.999999) || !(std::fabs(t.area()-a)<=1e-12*a)) ++badn;
+            }
+        o.push_back(badn);
+    }
     for (size_t i=0;i<nm;++i) for (size_t j=0;j<nm;++j) {
         out.f.push_back(geo.sigma(geo.meshes()[i],geo.meshes()[j]));
         out.f.push_back(geo.sigma_inv(geo.meshes()[i],geo.meshes()[j]));
